@@ -88,7 +88,10 @@ pub fn own_addrs(iface: &Interface) -> Vec<(Addr, u8)> {
 // device
 // ------------------------------------------------------------------------------------------
 
+/// transmit buffers are pre-filled with one of two complementary patterns (1010_0101 and
+/// 0101_1010): whatever bit a read-modify-write setter forgets to clear is 1 in one of them
 pub const POISON: u8 = 0xA5;
+pub const POISON2: u8 = 0x5A;
 pub const HANG_MARK: &str = "C10-HANG-DEVICE-LOOP";
 
 pub struct PDev {
@@ -100,9 +103,11 @@ pub struct PDev {
     pub calls: usize,
     /// None = unlimited; Some(n) = at most n more successful `transmit()` calls (back-pressure)
     pub tx_budget: Option<usize>,
+    /// octet every transmit buffer is filled with before smoltcp writes into it
+    pub poison: u8,
 }
 pub struct PRx(Vec<u8>);
-pub struct PTx<'a>(&'a mut Vec<Vec<u8>>);
+pub struct PTx<'a>(&'a mut Vec<Vec<u8>>, u8);
 impl phy::RxToken for PRx {
     fn consume<R, F: FnOnce(&[u8]) -> R>(self, f: F) -> R {
         f(&self.0)
@@ -111,7 +116,7 @@ impl phy::RxToken for PRx {
 impl<'a> phy::TxToken for PTx<'a> {
     fn consume<R, F: FnOnce(&mut [u8]) -> R>(self, len: usize, f: F) -> R {
         // a real DMA buffer holds whatever was in it before: make unwritten bytes visible
-        let mut b = vec![POISON; len];
+        let mut b = vec![self.1; len];
         let r = f(&mut b);
         self.0.push(b);
         r
@@ -131,7 +136,7 @@ impl Device for PDev {
     fn receive(&mut self, _t: Instant) -> Option<(PRx, PTx<'_>)> {
         self.tick();
         let b = self.rx.pop_front()?;
-        Some((PRx(b), PTx(&mut self.tx)))
+        Some((PRx(b), PTx(&mut self.tx, self.poison)))
     }
     fn transmit(&mut self, _t: Instant) -> Option<PTx<'_>> {
         self.tick();
@@ -140,7 +145,7 @@ impl Device for PDev {
             Some(ref mut n) => *n -= 1,
             None => {}
         }
-        Some(PTx(&mut self.tx))
+        Some(PTx(&mut self.tx, self.poison))
     }
     fn capabilities(&self) -> DeviceCapabilities {
         let mut c = DeviceCapabilities::default();
@@ -169,6 +174,8 @@ pub struct RigCfg {
     /// configure the unique-local address fd00::1/64
     /// (at most IFACE_MAX_ADDR_COUNT = 2 addresses fit by default)
     pub ula_addr: bool,
+    /// transmit buffer pre-fill (POISON or POISON2)
+    pub poison: u8,
 }
 impl RigCfg {
     pub fn dev_mtu(&self) -> usize {
@@ -178,7 +185,7 @@ impl RigCfg {
         }
     }
     pub fn name(&self) -> String {
-        format!("{}/mtu{}/{}", medium_name(self.medium), self.ip_mtu, CAP_NAMES[self.caps])
+        format!("{}/mtu{}/{}{}", medium_name(self.medium), self.ip_mtu, CAP_NAMES[self.caps], if self.poison == POISON { String::new() } else { format!("/tx-prefill-{:02x}", self.poison) })
     }
 }
 
@@ -204,6 +211,8 @@ pub struct Rig {
     /// (site, message, location) of panics inside Interface::poll
     pub panics: Vec<(String, String, String)>,
     pub hangs: Vec<String>,
+    /// findings a scenario establishes itself (signature, detail)
+    pub extra_findings: Vec<(String, String)>,
     pub dead: bool,
     pub polls: u64,
     pub trace: Vec<String>,
@@ -234,7 +243,7 @@ impl Rig {
         let medium = cfg.medium;
         let checksum = caps_of(cfg.caps);
         let ck = txck_of(&checksum);
-        let mut dev = PDev { medium, mtu: cfg.dev_mtu(), checksum, rx: VecDeque::new(), tx: vec![], calls: 0, tx_budget: None };
+        let mut dev = PDev { medium, mtu: cfg.dev_mtu(), checksum, rx: VecDeque::new(), tx: vec![], calls: 0, tx_budget: None, poison: cfg.poison };
         let hw = match medium {
             Medium::Ethernet => HardwareAddress::Ethernet(EthernetAddress(IFACE_MAC)),
             Medium::Ip => HardwareAddress::Ip,
@@ -277,6 +286,7 @@ impl Rig {
             raw_tags: vec![],
             panics: vec![],
             hangs: vec![],
+            extra_findings: vec![],
             dead: false,
             polls: 0,
             trace: vec![],
